@@ -436,7 +436,7 @@ Lemma co_resume_cases : forall k vals s r s', Inv s -> co_resume k vals s = (r, 
                          mco_resume k s1 = (MCO_SUCCESS, s')) \/
   ((exists e, r = CErr e) /\ s' = s).
 Proof.
-  intros k vals s r s' (I1 & I2 & I3) H. unfold co_resume in H. rewrite resume_rolls_back in H.
+  intros k vals s r s' (I1 & I2 & I3) H. unfold co_resume, co_resume_with in H. rewrite resume_rolls_back in H.
   destruct vals as [|v vr].
   - destruct (mco_resume k s) as [e s2] eqn:R. destruct (is_success e) eqn:Es.
     + destruct e; simpl in Es; try discriminate. inversion H; subst. left. split; [reflexivity|]. eauto.
@@ -518,7 +518,7 @@ Qed.
 
 Lemma co_destroy_Inv : forall k s r s', Inv s -> co_destroy k s = (r, s') -> Inv s'.
 Proof.
-  intros k s r s' I H. unfold co_destroy in H.
+  intros k s r s' I H. unfold co_destroy, co_destroy_with in H.
   destruct (gcon s && DESTROY_UNREGISTERS_FIRST).
   - destruct (gc_unregister k s) as [s1|] eqn:U; [|inversion H; subst; assumption].
     destruct (mco_destroy k s1) as [e s2] eqn:D. inversion H; subst.
